@@ -310,3 +310,33 @@ def scan_shape(g, list_attr):
                     f'changes the index or the list irregularly ({kinds})')
             problems.append((node, f'a path through the scan of {list_attr} {what}'))
     return problems, head
+
+
+def loop_body_paths(g, head, limit=4000):
+    """all simple paths through the body of the while-loop whose test is the cond node `head`:
+    from the T edge of the test back to the loop head.  Each path is a list of (node, label taken out of it)."""
+    starts = [m for l, m in g.succ[head.id] if l == 'T']
+    paths = []
+
+    def is_head(n):
+        node = g.nodes[n]
+        return n == head.id or (node.kind == 'join' and node.note == 'while-head' and head.id in [m for _, m in g.succ[n]])
+
+    def dfs(n, seen, acc):
+        if len(paths) > limit:
+            return
+        if is_head(n):
+            paths.append(list(acc))
+            return
+        if n in seen:
+            return
+        node = g.nodes[n]
+        if node.kind in ('exit', 'raise_exit'):
+            return
+        for lbl, m in g.succ[n]:
+            if lbl == 'exc':
+                continue
+            dfs(m, seen | {n}, acc + [(node, lbl)])
+    for s in starts:
+        dfs(s, frozenset(), [])
+    return paths
